@@ -60,7 +60,7 @@ def _weights(d, rng, lead, N):
     if kind == 'zeros':
         idx = d.subset(N, 1, max(1, N // 3))
         s[..., idx] = 0
-    if d.aux(84).integers(0, 4) == 0:
+    if d.epoch >= 2 and d.aux(84).integers(0, 4) == 0:
         # the unit of the saliency is arbitrary
         s = s * 10.0 ** d.aux(85).uniform(-14, 4)
         kind += '-scaled'
@@ -79,7 +79,7 @@ def single_estimators(d, ctx):
         N = d.int(3 * D + 2, 3 * D + 25)
     rng = d.rng()
     complex_ = which in ('ccsg', 'watson', 'cacg', 'cacg-fixed-point')
-    if which in ('watson', 'vmf') and d.aux(92).integers(0, 2) == 0:
+    if d.epoch >= 2 and which in ('watson', 'vmf') and d.aux(92).integers(0, 2) == 0:
         # one cluster of any concentration (kappa about 3..300 instead of the
         # few values two overlapping clusters give), dimension up to 8
         aux = d.aux(93)
@@ -97,7 +97,7 @@ def single_estimators(d, ctx):
     if not complex_:
         offset = d.choice([1.0, 1.0, 1e2, 1e4, 1e6])
         y = y + offset * rng.normal(size=(*lead, 1, D))
-    if which == 'cacg' and d.aux(90).integers(0, 3) == 0:
+    if d.epoch >= 2 and which == 'cacg' and d.aux(90).integers(0, 3) == 0:
         # strongly directional data: one direction 20..80 dB above the rest, so
         # that the smallest eigenvalue of the estimate lies between the
         # documented floor (1e-10) and the larger floors drawn below
